@@ -2,6 +2,7 @@
  * C19 (rehash incremental, bounded, lands where requested).  The library source is unity-#included so that this
  * harness builds no matter how hash.h declares its helpers. */
 #include "hash.c"
+#define W_AUDIT_NEW_STATES_ONLY 1   /* the key holds the implementation's raw state AND the reference model, so the audit verdict is a function of the key */
 #include "../engine/mc.h"
 #include <sanitizer/asan_interface.h>
 
@@ -488,7 +489,8 @@ static void canon_one(int t)
 static void w_canon(void)
 {
     KB_C('c'); KB_U((unsigned)cur); canon_one(0); canon_one(1);
-    KB_C('m'); KB_U(m_nreq); KB_C('f'); KB_U((unsigned)m_freq); KB_C(m_forced_settled ? 's' : 'u');
+    KB_C('m'); KB_U(m_nreq); KB_C('f'); KB_U((unsigned)m_freq); KB_C(m_forced_settled ? 's' : 'u'); KB_C(m_resized ? 'R' : '-');
+    { int i; for (i = 0; i < N; i++) KB_C(m_member[i] ? '1' : '0'); }
 }
 static void w_opname(mc_op_t o, char *b, size_t n)
 {
